@@ -185,6 +185,8 @@ def print_bdl(p, layout=None, want_doc=False):
                 a = [("CONSTRUCTION", q(consname))]
                 if w.get("loc"):
                     a.append(("LOCATION", w["loc"]))
+                    if "tilt_written" in w:
+                        a.append(("TILT", w["tilt_written"]))     # old LIDER writes the tilt next to the location
                 else:
                     a += [("X", w.get("x", 0)), ("Y", w.get("y", 0)), ("Z", w.get("z", 0)), ("AZIMUTH", w.get("azimuth", 0)), ("TILT", w.get("tilt", 90)),
                           ("POLYGON", q(w["polygon"]))]
@@ -315,6 +317,9 @@ def random_project(rng, nspaces=None, with_geometry_walls=False, space_offsets=F
         f["group"] = words.pop()
     for g in p["gaps"]:
         g["gglass"], g["gframe"] = words.pop(), words.pop()
+    for c in p["spaceconds"]:
+        # AREA/PERSON = 0 means nobody: the per-person gains written next to it are not divided by it
+        c["aperson"], c["psens"], c["plat"] = gr.choice([0, 0, 10, 12.5]), gr.choice([0, 40, 81.2]), gr.choice([0, 20, 45.42])
     p["azimuth"] = rng.choice(azimuths) if azimuths else rng.choice([0, 0, 30, 90, 143.5, 200, 315])
     p["perim"] = rng.choice([None, [1.0, 1.5]])
     if p["perim"] is None:
